@@ -16,7 +16,7 @@ def run(cmd, cwd, timeout=900):
 
 def main():
     pid, idx = sys.argv[1], sys.argv[2]
-    src = "/tmp/out/%s/%s" % (pid, idx)
+    src = "%s/%s/%s" % (os.environ.get("SEED_BASE", "/tmp/out"), pid, idx)
     wt = "/tmp/cf/%s_%s" % (pid, idx)
     res = {"property": pid, "index": idx, "base": None, "steps": {}}
     os.makedirs("/tmp/cf", exist_ok=True)
